@@ -69,6 +69,20 @@ _MONTH_FULL = list(_MONTH_ABBREV_TO_FULL.values())
 _LOWERCASE_FULL = list(m.lower() for m in _MONTH_FULL)
 
 
+def _digits_to_int(v):
+    """The int written by a digit-string, or the unchanged value if `int` cannot read it.
+
+    `str.isdigit` also accepts characters such as superscript digits, and `int` limits
+    the number of digits: neither is a month, and neither may raise.
+    """
+    if isinstance(v, str) and v.isdigit():
+        try:
+            return int(v)
+        except ValueError:
+            return v
+    return v
+
+
 class MonthLongStringMiddleware(_MonthInterpolator):
     """Replace month numbers with full month names.
 
@@ -87,9 +101,7 @@ class MonthLongStringMiddleware(_MonthInterpolator):
 
     # docstr-coverage: inherited
     def resolve_month_field_val(self, month_field: Field):
-        v = month_field.value
-        if isinstance(v, str) and v.isdigit():
-            v = int(v)
+        v = _digits_to_int(month_field.value)
         if isinstance(v, int):
             if v < 1 or v > 12:
                 return (
@@ -131,9 +143,7 @@ class MonthAbbreviationMiddleware(_MonthInterpolator):
 
     # docstr-coverage: inherited
     def resolve_month_field_val(self, month_field: Field):
-        v = month_field.value
-        if isinstance(v, str) and v.isdigit():
-            v = int(v)
+        v = _digits_to_int(month_field.value)
         if isinstance(v, int):
             if v < 1 or v > 12:
                 # Nothing we can do here
@@ -180,8 +190,8 @@ class MonthIntMiddleware(_MonthInterpolator):
                     "transformed abbreviated month to int-month",
                 )
 
-        if isinstance(v, str) and v.isdigit():
-            if 1 <= int(v) <= 12:
-                return int(v), "cast month int-string to int"
+        if isinstance(v, str) and isinstance(_digits_to_int(v), int):
+            if 1 <= _digits_to_int(v) <= 12:
+                return _digits_to_int(v), "cast month int-string to int"
 
         return month_field.value, "month field unchanged"
